@@ -246,18 +246,29 @@ template<class S> static S pick_pitch(vh::Rng & r, int mode)
 }
 
 // scale applied to a quaternion's coefficients: exactly unit, "almost unit" (1 + delta, |delta| log-uniform 1e-8..1e-2,
-// either sign: non-unit by a few ulps up to a percent, where a shortcut for "already normalised" input would sit), or
-// grossly non-unit (norm 1e-3..1e3).  `steep` raises the share of the almost-unit class (steep pitch is where a
-// missing normalisation is amplified by tan(pitch)).  Returns the class: 0 unit, 1 almost unit, 2 non-unit.
+// either sign: non-unit by a few ulps up to a percent, where a shortcut for "already normalised" input would sit),
+// grossly non-unit (norm 1e-3..1e3), or of extreme norm: log-spaced up to what the library's own algorithm can
+// represent -- normalized() only ever forms |q|^2, which stays finite and normal for norms 1e-18..1e18 in float and
+// 1e-150..1e150 in double (the statement puts no bound on the norm of a non-unit quaternion).  `steep` raises the
+// share of the almost-unit class (steep pitch is where a missing normalisation is amplified by tan(pitch)).
+// Returns the class: 0 unit, 1 almost unit, 2 non-unit, 3 extreme norm.
 template<class S> static int pick_quaternion_scale(vh::Rng & r, bool steep, S & scale)
 {
   int k = (int)r.range(0, 99);
-  int p_almost = steep ? 55 : 30;
+  int p_almost = steep ? 50 : 30;
   if (k < p_almost) {
     scale = (S)(1.0 + r.sign() * r.logu(1e-8, 1e-2));
     return scale == (S)1 ? 0 : 1;
   }
-  if (k < p_almost + 20) {scale = (S)1; return 0;}
+  if (k < p_almost + 15) {scale = (S)1; return 0;}
+  if (k < p_almost + 33) {
+    const double lim = std::is_same<S, float>::value ? 1e18 : 1e150;
+    const bool small = r.coin();
+    const bool at_end = r.coin(0.1);                       // the end of the range itself
+    const double v = at_end ? lim : r.logu(1e3, lim);
+    scale = (S)(small ? 1.0 / v : v);
+    return 3;
+  }
   scale = (S)r.logu(1e-3, 1e3);
   return 2;
 }
@@ -376,6 +387,7 @@ template<class S> static void euler_case(vh::Ctx & c, vh::Rng & r)
       c.cat(istr("quaternion_scale_almost_unit"));
       if (steep) {c.cat(istr("quaternion_scale_almost_unit_steep_pitch"));}
     }
+    if (sclass == 3) {c.cat(istr(scale < (S)1 ? "quaternion_scale_extreme_small" : "quaternion_scale_extreme_large"));}
     Eigen::Quaternion<S> qs(q.w() * scale, q.x() * scale, q.y() * scale, q.z() * scale);
     const V3 e = rc::quaternionToEulerAngles<S>(qs);
     bool fin = std::isfinite(e[0]) && std::isfinite(e[1]) && std::isfinite(e[2]);
@@ -503,6 +515,7 @@ template<class S> static void rotation_case(vh::Ctx & c, vh::Rng & r, bool as_qu
       c.cat(istr("quaternion_scale_almost_unit"));
       if (steep) {c.cat(istr("quaternion_scale_almost_unit_steep_pitch"));}
     }
+    if (sclass == 3) {c.cat(istr(scale < (S)1 ? "quaternion_scale_extreme_small" : "quaternion_scale_extreme_large"));}
     if (r.coin()) {scale = -scale;}                      // q and -q are the same rotation
     for (;;) {
       qs = Eigen::Quaternion<S>((S)(ql.w * scale), (S)(ql.x * scale), (S)(ql.y * scale), (S)(ql.z * scale));
